@@ -186,6 +186,11 @@ func (c *vbConn) clientWrote(mc *memConn, p []byte) error {
 			c.silent = true
 			b.log.add(c.id, "SILENT", nil, "")
 		}
+		if f := b.fault(func(f *e4Fault) bool { return f.Conn == c.id && f.Kind == "closeAfter" && f.Pkt == j }); f != nil {
+			// the packet was answered normally, then the broker closes the link
+			c.kill()
+			return nil
+		}
 		if f := b.fault(func(f *e4Fault) bool { return f.Conn == c.id && f.Kind == "garbage" && f.Pkt == j }); f != nil {
 			b.log.add(c.id, "B-GARBAGE", nil, "")
 			mc.peerSend([]byte{0xF0, 0x00})
@@ -350,6 +355,8 @@ type vdialer struct {
 	attempts int
 	dials    []vDialEv
 	gate     chan struct{} // non-nil: dialling blocks until closed (or ctx done)
+	holdFrom int           // > 0: attempts with a number >= holdFrom block on holdGate
+	holdGate chan struct{}
 	conns    []*vbConn
 	tEnd     map[int]time.Time // first close of each transport (attempt -> time)
 	onState  func(conn int, s ConnState, err error)
@@ -368,6 +375,10 @@ func (d *vdialer) hold() {
 
 func (d *vdialer) release() {
 	d.mu.Lock()
+	if d.holdFrom > 0 {
+		d.holdFrom = 0
+		close(d.holdGate)
+	}
 	if d.gate != nil {
 		close(d.gate)
 		d.gate = nil
@@ -387,6 +398,9 @@ func (d *vdialer) DialContext(ctx context.Context) (*BaseClient, error) {
 		}
 	}
 	gate := d.gate
+	if gate == nil && d.holdFrom > 0 && k >= d.holdFrom {
+		gate = d.holdGate
+	}
 	d.mu.Unlock()
 	ev.SeqCall = d.b.log.add(k, "DIAL", nil, "")
 	finish := func(err error) {
